@@ -87,3 +87,70 @@ def derivations(rules, toks, start, alt_types=None):
     if (start, 0, n) not in D: return []
     return nt(start, 0, n)
 
+
+
+def derivations_lattice(rules, n, term_spans, start, end_ok, limit=400):
+    """All derivations of a character lattice (dynamic lexers): positions are offsets 0..n; `term_spans(name, i)` lists the (i', j') a terminal can
+    occupy when it is expected at offset i (ignored text between i and i' already skipped); `end_ok(j)`: the rest of the input after j is ignorable.
+    A derivation is (rule, children); a terminal child is (name, i', j').  Returns None when more than `limit` derivations exist."""
+    by = {}
+    for r in rules: by.setdefault(r.origin.name, []).append(r)
+    D = set()
+    def feas(syms, i, j, memo):
+        key = (syms, i, j)
+        if key in memo: return memo[key]
+        if not syms: r = (i == j)
+        else:
+            s = syms[0]
+            if s.is_term:
+                r = any(jj <= j and feas(syms[1:], jj, j, memo) for _ii, jj in term_spans(s.name, i))
+            else:
+                r = any((s.name, i, k) in D and feas(syms[1:], k, j, memo) for k in range(i, j + 1))
+        memo[key] = r; return r
+    ch = True
+    while ch:
+        ch = False; memo = {}
+        for r in rules:
+            for i in range(n + 1):
+                for j in range(i, n + 1):
+                    if (r.origin.name, i, j) not in D and feas(tuple(r.expansion), i, j, memo):
+                        D.add((r.origin.name, i, j)); ch = True
+    fm, memo2 = {}, {}
+    count = [0]
+    class TooMany(Exception): pass
+    def seqs(syms, i, j):
+        if not syms: return [[]] if i == j else []
+        out = []; s = syms[0]
+        if s.is_term:
+            for ii, jj in term_spans(s.name, i):
+                if jj <= j and feas(syms[1:], jj, j, fm):
+                    for rest in seqs(syms[1:], jj, j): out.append([(s.name, ii, jj)] + rest)
+        else:
+            for k in range(i, j + 1):
+                if (s.name, i, k) in D and feas(syms[1:], k, j, fm):
+                    ds = nt(s.name, i, k)
+                    for rest in seqs(syms[1:], k, j):
+                        for d in ds: out.append([d] + rest)
+        if len(out) > limit: raise TooMany
+        return out
+    def nt(A, i, j):
+        key = (A, i, j)
+        if key in memo2:
+            if memo2[key] is None: raise RecursionError('cycle')
+            return memo2[key]
+        memo2[key] = None
+        res = []
+        for r in by.get(A, []):
+            if feas(tuple(r.expansion), i, j, fm):
+                for ch_ in seqs(tuple(r.expansion), i, j): res.append((r, ch_))
+        if len(res) > limit: raise TooMany
+        memo2[key] = res
+        return res
+    out = []
+    try:
+        for j in range(n + 1):
+            if end_ok(j) and (start, 0, j) in D:
+                out.extend(nt(start, 0, j))
+    except TooMany:
+        return None
+    return out if len(out) <= limit else None
